@@ -302,7 +302,7 @@ fn build_stmts(tier: &str, seed: u64) -> Vec<(usize, String)> {
     out
 }
 
-/// per-case watchdog of a child process: prints `H <id>` and exits when a case runs longer than 4 s
+/// per-case watchdog of a child process: prints `H <id>` and exits when a case runs longer than 8 s
 fn start_watchdog() -> (Arc<AtomicU64>, Arc<AtomicU64>) {
     let started = Arc::new(AtomicU64::new(0));
     let current = Arc::new(AtomicU64::new(u64::MAX));
@@ -313,7 +313,7 @@ fn start_watchdog() -> (Arc<AtomicU64>, Arc<AtomicU64>) {
         if cur != u64::MAX {
             let t0 = s2.load(Ordering::SeqCst);
             let now = std::time::SystemTime::now().duration_since(std::time::UNIX_EPOCH).unwrap().as_millis() as u64;
-            if now > t0 + 4000 {
+            if now > t0 + 8000 {
                 println!("H\t{}", cur);
                 let _ = std::io::stdout().flush();
                 std::process::exit(3);
@@ -469,7 +469,7 @@ fn main() {
                 from the pool (30 values quick / 40 thorough: null, ints incl. +-2^63 / 2^64, rational, floats incl. NaN and inf, \
                 complex, strings incl. non-ASCII, lists, dicts with and without default, vectors, bytes incl. non-UTF-8, finite \
                 stream, closures, builtins, containers with an unhashable value nested inside, finite streams whose production raises part-way, advanced list-backed streams) plus sampled 3-tuples, called through Func::run under catch_unwind in child \
-                processes with a 4 s per-case watchdog and a 6 GiB address-space limit; numeric-size builtins are skipped when an \
+                processes with a 8 s per-case watchdog and a 6 GiB address-space limit; numeric-size builtins are skipped when an \
                 argument is astronomically large. Then try/catch containment through source programs, the statement sweep (47 statement templates x pool tuples, also in watchdogged child processes) and fault-injected \
                 generated programs. non-trivial = a call that raised or returned normally with >= 1 argument; distinct = \
                 distinct call text"
